@@ -1333,6 +1333,11 @@ def check_iterate_table(cx):
                     res.add((nb, nc, vfmt(o['ret'])))
                     lists |= {('condition', vfmt(e[2][1])) for e in ev_calls(o, EVAL_COND)}
                     lists |= {('body', vfmt(e[2][0])) for e in ev_calls(o, EXECUTE)}
+                # a body divert that the function looks at (without changing it) comes back refined, one result per variant:
+                # Break(Continue), Break(Break), ... - together they are Break(<d_body>)
+                if bodyres == 'divert' and len(res) > 1 and {r[:2] for r in res} == {(1, 1)} and \
+                        {r[2] for r in res} == {'Break(%s)' % v for v in DIVERT_ORDER}:
+                    res = {(1, 1, 'Break(<d_body>)')}
                 if cond == 'divert':
                     want = {(0, 1, 'Break(<d_cond>)')}
                 elif (cond == 'true') != expected:
@@ -1576,6 +1581,9 @@ INSPECTORS = {
     "yash_semantics::command::compound_command::while_loop::Loop::<'_, S>::execute":
         ({'Break', 'Continue'}, 'loop table (C02.R5)'),
     'yash_semantics::command::compound_command::for_loop::execute': ({'Break', 'Continue'}, 'loop table (C02.R5)'),
+    "yash_semantics::command::compound_command::while_loop::Loop::<'_, S>::iterate":
+        ({'Continue'}, 'records $? of a body run that ended with `continue` (C02.R5d); the divert itself is returned unchanged, '
+                       'which the iterate table of C02.R5 decides'),
     'yash_cli::run_as_shell_process': (set(DIVERT_ORDER), 'EXIT trap decision at shell exit (C10.R6)'),
     'yash_env::semantics::Divert::exit_status': (set(DIVERT_ORDER), 'accessor'),
 }
@@ -2071,3 +2079,110 @@ def r1b(cx):
     if not users:
         cx.violation('yash_env::semantics::command::search', 'search-without-test', 'the PATH search no longer tests candidates with '
                      'is_executable_file', loc='yash-env/src/semantics/command/search.rs')
+
+
+@RS.rule('C02.R5d', 'K-PASS', "while/until: the loop's status is $? after the LAST run of the body, also when that run ended with `continue` "
+         '(the status of the continue built-in), as in the for loop')
+def r5d(cx):
+    F = cx.F
+    LOOP_ADT = WL + 'Loop'
+    it = F.main_body(WL + "Loop::<'_, S>::iterate")
+    ex = F.main_body(WL + "Loop::<'_, S>::execute")
+    cx.fn(it.fn)
+    cx.fn(ex.fn)
+
+    def writes(b):
+        return {blk for blk, j, s, kind, f in Q.field_writes(b, re.compile(r'while_loop::Loop(<.*>)?$'), 'exit_status')}
+
+    def continue_edges(b, du):
+        """edges taken when a Divert value is Divert::Continue"""
+        out = []
+        for u in sorted(b.live_blocks()):
+            ec = Q.edge_condition(F, b, du, u)
+            if ec and ec[0]['k'] == 'discr' and (ec[0].get('ty') or '').endswith('semantics::Divert'):
+                for tgt, labs in ec[1].items():
+                    if set(labs) == {('variant', 'Continue')}:
+                        out.append((u, tgt))
+        return out
+
+    def nonzero_count_edges(b, du):
+        out = set()
+        for u in sorted(b.live_blocks()):
+            ec = Q.edge_condition(F, b, du, u)
+            if ec and ec[0]['k'] == 'place' and any(isinstance(e, dict) and e.get('f') == 'count' for e in (ec[0]['pl'].get('p') or [])):
+                for tgt, labs in ec[1].items():
+                    if ('int', 0) not in labs:
+                        out.add((u, tgt))
+        return out
+
+    # normal completion of the body: the status is recorded before the condition is evaluated again
+    du_it = Q.DefUse(it)
+    body_exec = [(blk, t) for blk, t in it.calls() if Q.callee_is(t, [re.compile(r'List as yash_semantics::command::Command<S>>::execute$'),
+                                                                       re.compile(r'::Command<S>>::execute$'), '*::Command::execute'])
+                 and 'body' in str(Q.arg_names(it, du_it, t)[0])]
+    cx.require(len(body_exec) == 1, 'the execution of the loop body was not found in Loop::iterate')
+    w_it, w_ex = writes(it), writes(ex)
+    cx.require(w_it or w_ex, 'nothing records the status of the body in the while loop')
+    # `continue` (count 0): recorded either in iterate (on the Divert::Continue edge, before returning) or in execute (before iterating again)
+    du_ex = Q.DefUse(ex)
+    ok_it = False
+    ce_it = continue_edges(it, du_it)
+    if ce_it and w_it:
+        ok_it = all(it.shortest_path(tgt, set(it.return_blocks()), removed=w_it, removed_edges=nonzero_count_edges(it, du_it)) is None
+                    for u, tgt in ce_it)
+    ce_ex = continue_edges(ex, du_ex)
+    cx.require(ce_ex or ce_it, 'no test for Divert::Continue in the while loop (C02.R5 reports the table)')
+    again = {blk for blk, t in Q.find_calls(ex, [WL + "Loop::<'_, S>::iterate"])}
+    ok_ex = bool(ce_ex) and bool(w_ex) and all(
+        ex.shortest_path(tgt, again, removed=w_ex, removed_edges=nonzero_count_edges(ex, du_ex)) is None for u, tgt in ce_ex)
+    cx.site('while/until: status of the body recorded after normal completion in %s; after `continue`: in iterate %s, in execute %s'
+            % (sorted(it.loc(it.term(b)) for b in w_it), ok_it, ok_ex))
+    if not (ok_it or ok_ex):
+        cx.violation(WL + "Loop::<'_, S>::execute", 'continue-keeps-stale-status', 'when the last run of the body ends with `continue`, the loop '
+                     'goes on to evaluate the condition without recording $? (0, the status of continue): the loop finally returns the '
+                     'status of an EARLIER iteration - `i=0; while [ $i -lt 2 ]; do i=$((i+1)); [ $i = 2 ] && continue; (exit 7); done; '
+                     'echo $?` prints 7, the same loop written with `for` prints 0', loc=ex.loc(ex.term(ce_ex[0][0])) if ce_ex else ex.loc(ex.d))
+
+
+@RS.rule('C02.R10', 'K-GUARD', 'a source without commands (eval / dot script / command substitution made of blank and comment lines) ends with $? = 0: '
+         'the read-eval loop counts a parsed line as "executed" only if it contains a command (or was a syntax error)')
+def r10(cx):
+    F = cx.F
+    fn = 'yash_semantics::runner::read_eval_loop_impl'
+    body = F.main_body(fn)
+    cx.fn(body.fn)
+    du = Q.DefUse(body)
+    flags = [l for l, d in enumerate(body.locals) if d.get('name') == 'executed' and d.get('ty') == 'bool']
+    cx.require(len(flags) == 1, 'the `executed` flag of read_eval_loop_impl was not found (renamed? review how an empty source resets $?)')
+    fl = flags[0]
+    # the reset itself: $? = SUCCESS on the end-of-input edge when nothing was executed
+    resets = [(blk, j, s) for blk, j, s, kind, f in Q.field_writes(body, 'yash_env::Env', 'exit_status') if kind == 'assign']
+    cx.require(resets, 'read_eval_loop_impl no longer resets $? for an empty source')
+    empties = Q.find_calls(body, ['alloc::vec::Vec::<T, A>::is_empty', re.compile(r'::is_empty$')])
+    t_empty = Q.forward_taint(body, {t['dest']['l'] for _, t in empties}) if empties else set()
+    sets = [(blk, j, s) for blk, j, s in body.stmts() if s['k'] == 'assign' and s['lhs']['l'] == fl and not s['lhs'].get('p')]
+    n = 0
+    for blk, j, s in sets:
+        rv = s['rv']
+        const = rv['k'] == 'use' and isinstance(rv['o'], dict) and 'c' in rv['o']
+        if const and str(rv['o']['c']).endswith('false'):
+            continue                      # initialisation
+        n += 1
+        ok = False
+        why = ''
+        if const:
+            for org, lab, e in Q.implied_conditions(F, body, du, blk):
+                if org['k'] == 'call' and Q.callee_is(org['t'], [re.compile(r'::is_empty$')]) and lab == ('bool', False):
+                    ok, why = True, 'under !list.is_empty()'
+                if org['k'] == 'discr' and 'Result' in (org.get('ty') or '') and lab == ('variant', 'Err') and 'Error' in (org.get('ty') or ''):
+                    ok, why = True, 'on the parser-error arm'
+        else:
+            ok = any(p['l'] in t_empty for p in Q.rvalue_places(rv))
+            why = 'value derived from list.is_empty()' if ok else ''
+        cx.site('%s: `executed` set at %s: %s' % (body.fn, body.loc(s), why or 'unconditionally, for every parsed line'))
+        if not ok:
+            cx.violation(fn, 'blank-line-counts-as-command', 'every parsed line marks the source as "has executed a command", also the empty '
+                         'list of a blank or comment-only line: `false; . ./only-comments.sh; echo $?` and `false; x=$(<newline>); echo $?` '
+                         'print 1, an empty file / `eval ""` print 0 (the documented and POSIX result for a source without commands)',
+                         loc=body.loc(s))
+    cx.require(n >= 1, 'read_eval_loop_impl never sets the `executed` flag')
